@@ -395,6 +395,16 @@ def sub_ext(case):
                         ('HDKey(xkey,network)', lambda: HDKey(s, network=net), _expect_meta(cands, priv, net), False),
                         ('HDKey(xkey,all_hints)', lambda: HDKey(s, network=net, witness_type=wt, multisig=ms),
                          [(net, wt, ms)], False),
+                        # every partial combination of hints: a correct hint for one field must not disturb what the
+                        # prefix says about the others
+                        ('HDKey(xkey,witness_type)', lambda: HDKey(s, witness_type=wt), _expect_meta(cands, priv, None, wt), True),
+                        ('HDKey(xkey,network,witness_type)', lambda: HDKey(s, network=net, witness_type=wt),
+                         _expect_meta(cands, priv, net, wt), False),
+                        ('HDKey(xkey,multisig)', lambda: HDKey(s, multisig=ms), _expect_meta(cands, priv, None, None, ms), True),
+                        ('HDKey(xkey,network,multisig)', lambda: HDKey(s, network=net, multisig=ms),
+                         _expect_meta(cands, priv, net, None, ms), False),
+                        ('HDKey(xkey,witness_type,multisig)', lambda: HDKey(s, witness_type=wt, multisig=ms),
+                         _expect_meta(cands, priv, None, wt, ms), True),
                         ('HDKey.from_wif(xkey)', lambda: HDKey.from_wif(s), _expect_meta(cands, priv), True),
                         ('HDKey.from_wif(xkey,network,multisig)', lambda: HDKey.from_wif(s, network=net, multisig=ms),
                          _expect_meta(cands, priv, net, None, ms), False),
